@@ -30,12 +30,12 @@ Definition hdr_of (r : res tx) : res txhdr :=
 Inductive case :=
 (* crypto/sha256.Sum256 on inp *)
 | CSha (inp out : bytes)
-(* one (possibly corrupted) transaction read three ways on the same opened store; stream = tx-log
+(* one (possibly corrupted) transaction, asked for by its id, read three ways on the same opened store; stream = tx-log
    bytes from the offset the commit log gives for the id up to the end of the log;
    out = ImmuStore.ReadTx(id, false, holder) with holder = NewTx(nslots, maxKeyLen);
    skip = ImmuStore.ReadTx(id, true, holder) (skipIntegrityCheck), when it was made;
    hdr = ImmuStore.ReadTxHeader(id, false, false), when it was made *)
-| CTx (nslots maxKeyLen : N) (stream : bytes) (out : res tx) (skip : option (res tx))
+| CTx (nslots maxKeyLen id : N) (stream : bytes) (out : res tx) (skip : option (res tx))
       (hdr : option (res txhdr))
 (* pristine store: the record found in the tx log for the transaction Go read back as t *)
 | CWrite (t : tx) (rec : bytes)
@@ -72,11 +72,11 @@ Fixpoint sess_ok (mvl : N) (m : vmode) (txlog : bytes) (vlogs : list bytes) (c :
 Definition case_ok (c : case) : bool :=
   match c with
   | CSha i o => bytes_eqb (sha256 i) o
-  | CTx ns mk s o sk hd =>
-      let r := read_tx_at sha256 true ns mk s 0 (len s) in
+  | CTx ns mk id s o sk hd =>
+      let r := read_tx_at sha256 true ns mk s 0 (len s) id in
       res_eqb tx_eqb r o &&
       (match sk with
-       | Some o' => res_eqb tx_eqb (read_tx_at sha256 false ns mk s 0 (len s)) o'
+       | Some o' => res_eqb tx_eqb (read_tx_at sha256 false ns mk s 0 (len s) id) o'
        | None => true end) &&
       (match hd with Some o' => res_eqb txhdr_eqb (hdr_of r) o' | None => true end)
   | CWrite t rec => res_eqb bytes_eqb (write_tx sha256 t) (Ok rec)
